@@ -96,12 +96,35 @@ def table_decimals():
 # ---------------------------------------------------------------- strings
 
 UNICODE = st.characters(exclude_categories=['Cs'])
+SPECIALS = '\x00\x7f\x80\u07ff\u0800\uffff\U00010000\U0010ffff\xce\ufeff\ufffe\ufffd'
 MIXED_CHARS = st.one_of(
     st.characters(min_codepoint=0x20, max_codepoint=0x7e),
     st.characters(min_codepoint=0x20, max_codepoint=0x7e),
     UNICODE,
-    st.sampled_from('\x00\x7f\x80\u07ff\u0800\uffff\U00010000\U0010ffff\xce\ufeff\ufffe\ufffd'),
+    st.sampled_from(SPECIALS),
 )
+
+
+def mixed_text(min_size=0, max_size=40):
+    """text over MIXED_CHARS with the weights kept.  st.text(alphabet=one_of(...)) merges the
+    character strategies into one interval set, after which the 12 special characters are
+    12 points among 1.1 million: measured, U+FEFF did not occur once in 5000 strings.  Here
+    every character is its own draw, and a special character is put first / last / in the
+    middle of an otherwise plain string in a quarter of the cases."""
+    per_char = st.lists(MIXED_CHARS, min_size=min_size, max_size=max_size).map(''.join)
+    if max_size < 1:
+        return per_char
+
+    def place(special, body, where):
+        if where == 0:
+            return special + body
+        if where == 1:
+            return body + special
+        return body[:len(body) // 2] + special + body[len(body) // 2:]
+    plain = st.text(st.characters(min_codepoint=0x20, max_codepoint=0x7e) | UNICODE,
+                    min_size=max(0, min_size - 1), max_size=max_size - 1)
+    edged = st.builds(place, st.sampled_from(SPECIALS), plain, st.integers(0, 2))
+    return st.one_of(per_char, per_char, per_char, edged)
 
 
 def surrogate_strs():
@@ -125,7 +148,7 @@ def surrogate_strs():
 
 
 def texts(max_size=40):
-    return st.text(MIXED_CHARS, max_size=max_size)
+    return mixed_text(0, max_size)
 
 
 def _fit_bytes(s, limit):
@@ -138,7 +161,7 @@ def shortstrs(max_bytes=255):
     """str with at most max_bytes UTF-8 bytes (by construction)"""
     return st.one_of(
         texts(24),
-        st.text(MIXED_CHARS, max_size=max_bytes),
+        mixed_text(0, max_bytes),
         st.builds(lambda c, n: c * n, st.sampled_from('a\xe9€\U0001f600'),
                   st.sampled_from([1, 63, 64, 85, 127, 128, 254, 255])),
     ).map(lambda s: _fit_bytes(s, max_bytes))
@@ -151,17 +174,17 @@ def table_keys():
              '\ud800' <= 'a'] or ['k']
     return st.one_of(
         st.sampled_from(words),
-        st.text(MIXED_CHARS, max_size=12),
+        mixed_text(0, 12),
         st.text(st.characters(min_codepoint=0x61, max_codepoint=0x7a),
                 min_size=1, max_size=6),
-        st.text(MIXED_CHARS, max_size=128),
+        mixed_text(0, 128),
         st.sampled_from(['', 'a' * 128, 'x-' + 'k' * 100, '\xe9' * 127]),
     ).map(lambda s: _fit_bytes(s[:128], 255))
 
 
 def longstrs():
     """long strings crossing 255 and 65535 bytes"""
-    tile = st.text(MIXED_CHARS, min_size=1, max_size=16)
+    tile = mixed_text(1, 16)
     return st.one_of(
         texts(40), texts(40), texts(300),
         st.builds(lambda t, n: (t * (n // len(t) + 1))[:n], tile,
